@@ -531,6 +531,10 @@ func TestLegs(t *testing.T) {
 }
 
 // TestReplay runs the case stored in $VERIF_REPLAY through its leg's runner.
+// ReplayRepeat names legs whose failures depend on the goroutine schedule: a replay
+// runs the saved case up to that many times and stops at the first failure.
+var ReplayRepeat = map[string]int{}
+
 func TestReplay(t *testing.T) {
 	path := os.Getenv("VERIF_REPLAY")
 	if path == "" {
@@ -549,6 +553,9 @@ func TestReplay(t *testing.T) {
 			continue
 		}
 		res, f := l.replay(rf.Case)
+		for i := 1; f == nil && i < ReplayRepeat[rf.Leg]; i++ {
+			res, f = l.replay(rf.Case)
+		}
 		if f != nil && IsKnown(f.Key) {
 			col.knownHit(f.Key, f.Msg, rf.Case)
 			f = nil
